@@ -173,6 +173,44 @@ fn s_upd(u: &Upd) -> String {
     }
 }
 
+/// The same update written with prefixed names.  Style 1 binds `z:` to `urn:`, style 2 binds the SAME label `z:` to
+/// `urn:s` (only IRIs below it are abbreviated): within one history the label is re-bound from request to request, and each
+/// request's own declaration is what counts.
+fn restyle(text: &str, style: u64) -> String {
+    let ns = match style {
+        1 => "urn:",
+        2 => "urn:s",
+        _ => return text.to_string(),
+    };
+    let mut out = String::new();
+    let mut used = false;
+    let mut rest = text;
+    while let Some(i) = rest.find('<') {
+        out.push_str(&rest[..i]);
+        let tail = &rest[i..];
+        match tail.find('>') {
+            Some(j) => {
+                let iri = &tail[1..j];
+                let local = iri.strip_prefix(ns);
+                match local {
+                    Some(l) if !l.is_empty() && l.chars().all(|c| c.is_ascii_alphanumeric()) && l.chars().next().map_or(false, |c| c.is_ascii_alphanumeric()) => {
+                        out.push_str(&format!("z:{}", l));
+                        used = true;
+                    }
+                    _ => out.push_str(&tail[..=j]),
+                }
+                rest = &tail[j + 1..];
+            }
+            None => {
+                out.push_str(tail);
+                rest = "";
+            }
+        }
+    }
+    out.push_str(rest);
+    if used { format!("PREFIX z: <{}> {}", ns, out) } else { text.to_string() }
+}
+
 fn canon_val(v: &str) -> String {
     if v.starts_with("_:kolibrie-update-") {
         hex("_:B")
@@ -419,8 +457,9 @@ impl Prop for C03 {
         }
         let mut db = build_db(&db_ast);
         let mut out = Vec::new();
-        for o in &ops {
+        for (k, o) in ops.iter().enumerate() {
             let text = s_upd(o);
+            let text = restyle(&text, (fnv(&text) + k as u64) % 4);
             if std::env::var("KVERIF_C03_TRACE").is_ok() {
                 eprintln!("--- before: {}\n--- op: {}", canon_dataset(&db), text.replace('\n', " "));
             }
